@@ -1,2 +1,100 @@
+"""Verus back end: mechanical extraction of the functions under contract into one file + run.
+What the extraction drops is listed in the prelude's header and in the evidence."""
+import hashlib
+import json
+import os
+import re
+import subprocess
+import tempfile
+import time
+
+
+def _match_braces(text, start):
+    """index just after the brace matching text[start] == '{' (no braces in strings/comments in the anchors we use)"""
+    depth = 0
+    i = start
+    while i < len(text):
+        c = text[i]
+        if c == "{":
+            depth += 1
+        elif c == "}":
+            depth -= 1
+            if depth == 0:
+                return i + 1
+        i += 1
+    raise ValueError("unbalanced braces")
+
+
+def extract_c08(repo):
+    src = open(os.path.join(repo, "emulator-2a-lib/src/machine/alu.rs")).read()
+    m = re.search(r"pub enum AluSelect\s*\{", src)
+    if not m:
+        raise ValueError("anchor lost: enum AluSelect")
+    end = _match_braces(src, m.end() - 1)
+    body = src[m.end():end - 1]
+    variants = []
+    for line in body.splitlines():
+        line = line.strip()
+        if not line or line.startswith("///") or line.startswith("//") or line.startswith("#["):
+            continue
+        variants.append(line)
+    enum_txt = "pub enum AluSelect {\n" + "\n".join("    " + v for v in variants) + "\n}\n"
+    m = re.search(r"pub fn from_input\(input: &AluInput, function: &AluSelect\) -> Self\s*\{", src)
+    if not m:
+        raise ValueError("anchor lost: fn AluOutput::from_input(&AluInput, &AluSelect) -> Self")
+    end = _match_braces(src, m.end() - 1)
+    fn_body = src[m.end() - 1:end]
+    return enum_txt, fn_body, hashlib.sha256(fn_body.encode()).hexdigest()
+
+
 def run(pid, cfg, repo, verif):
-    return {"summary": {}, "obligations": 0, "discharged": 0, "cmd": "", "undecided": [], "violations": []}
+    out = {"summary": {}, "obligations": 0, "discharged": 0, "cmd": "", "undecided": [], "violations": []}
+    if cfg != "c08":
+        return out
+    t0 = time.time()
+    try:
+        enum_txt, fn_body, h = extract_c08(repo)
+    except ValueError as e:
+        out["undecided"].append("verus extraction: %s" % e)
+        return out
+    prelude = open(os.path.join(verif, "verus", "c08_prelude.rs")).read()
+    text = prelude.replace("//@EXTRACTED-ENUM", enum_txt).replace("//@EXTRACTED-BODY", fn_body)
+    base = os.environ.get("VERIF_SCRATCH") or os.environ.get("TMPDIR") or "/var/tmp"
+    d = tempfile.mkdtemp(prefix="verif-verus.", dir=base)
+    try:
+        f = os.path.join(d, "c08_alu.rs")
+        open(f, "w").write(text)
+        cmd = ["verus", f, "--output-json", "--time"]
+        r = subprocess.run(cmd, capture_output=True, text=True, timeout=600, cwd=d)
+        txt = r.stdout
+        js = None
+        try:
+            js = json.loads(txt[txt.index("{"):])
+        except Exception:
+            pass
+        res = (js or {}).get("verification-results", {})
+        verified, errors = res.get("verified", 0), res.get("errors", 0)
+        out["cmd"] = "verus <extracted c08_alu.rs> --output-json --time"
+        out["summary"] = {"backend": "verus", "functions_verified": verified, "errors": errors,
+                          "extracted_body_sha256": h, "wall_s": round(time.time() - t0, 1),
+                          "smt_time_ms": ((js or {}).get("times-ms", {}) or {}).get("smt", {}).get("total") if js else None,
+                          "dropped_by_extraction": ["enum_from_primitive! wrapper", "derive / cfg_attr attributes", "doc comments", "visibility of struct fields is widened to pub"],
+                          "assumed_specifications": ["u8::overflowing_add", "u8::overflowing_shr", "bool -> u8 conversion (vstd)"]}
+        if js is None or not res:
+            out["undecided"].append("verus produced no result (exit %d): %s" % (r.returncode, (r.stderr or txt)[-600:]))
+        elif res.get("success") and errors == 0 and verified > 0:
+            out["obligations"] = verified
+            out["discharged"] = verified
+        else:
+            # rejected: either the code changed behaviour or Verus cannot handle a new construct
+            msg = (r.stderr or "") + txt
+            if re.search(r"postcondition not satisfied|assertion failed", msg):
+                out["obligations"] = max(1, verified + errors)
+                out["discharged"] = verified
+                out["violations"].append(("C08.V.from_input.ensures (Verus)", msg))
+            else:
+                out["undecided"].append("verus rejected the extracted file for a reason other than a failed obligation: %s" % msg[-800:])
+    finally:
+        import shutil
+        shutil.rmtree(d, ignore_errors=True)
+    return out
